@@ -519,23 +519,70 @@ def value_attr(I, obj, name):
         if name == "copy":
             return Builtin("copy", lambda: dict(obj))
         if name == "setdefault":
-            return Builtin("setdefault", lambda k, d=None: obj.setdefault(_key(k), d))
+            return Builtin("setdefault", lambda k, d=None: obj.setdefault(dict_key(I, obj, k), d))
+        if name == "clear":
+            return Builtin("clear", lambda: obj.clear())
+        if name == "popitem":
+            return Builtin("popitem", lambda: obj.popitem())
+        if name == "fromkeys":
+            return Builtin("fromkeys", lambda ks, v=None: {_key(k): v for k in iterate(I, ks)})
     if isinstance(obj, list):
         if name == "append":
             return Builtin("append", lambda x: obj.append(x))
         if name == "extend":
             return Builtin("extend", lambda x: obj.extend(iterate(I, x)))
         if name == "sort":
-            raise AnalysisError("list.sort on symbolic values")
+            def lsort(key=None, reverse=False):
+                obj[:] = I.call(I.builtins["sorted"], [list(obj)], {"key": key, "reverse": reverse})
+            return Builtin("sort", lsort)
+        if name == "reverse":
+            return Builtin("reverse", lambda: obj.reverse())
+        if name == "insert":
+            return Builtin("insert", lambda i, x: obj.insert(concrete_int(i), x))
+        if name == "pop":
+            def lpop(i=-1):
+                try:
+                    return obj.pop(concrete_int(i))
+                except IndexError:
+                    raise SymRaise("IndexError", "pop from empty list")
+            return Builtin("pop", lpop)
+        if name == "remove":
+            def lremove(x):
+                for i, y in enumerate(obj):
+                    if _same(x, y):
+                        del obj[i]
+                        return None
+                raise SymRaise("ValueError", "list.remove(x): x not in list")
+            return Builtin("remove", lremove)
+        if name == "copy":
+            return Builtin("copy", lambda: list(obj))
+        if name == "clear":
+            return Builtin("clear", lambda: obj.clear())
+        if name == "count":
+            return Builtin("count", lambda x: sp.Integer(sum(1 for y in obj if _same(x, y))))
     if isinstance(obj, tuple) or isinstance(obj, list):
         if name == "index":
             return Builtin("index", lambda x: [i for i, y in enumerate(obj) if _same(x, y)][0])
     if isinstance(obj, str):
-        if name in ("split", "strip", "rstrip", "lstrip", "lower", "upper", "replace", "startswith",
-                    "endswith", "join", "isdigit", "capitalize", "format"):
+        if hasattr(str, name) and not name.startswith("__"):
             def strm(*a, **k):
-                a = [_pyfmt(x) if not isinstance(x, (list, tuple)) else list(x) for x in a]
-                return getattr(obj, name)(*a, **k)
+                try:
+                    a = [_pyfmt(x) if not isinstance(x, (list, tuple, GenVal)) else [ _pyfmt(y) for y in iterate(I, x)] for x in a]
+                    k = {kk: _pyfmt(v) for kk, v in k.items()}
+                except ValueError:
+                    if name == "format":
+                        return StrSym()
+                    raise AnalysisError(f"str.{name} with a symbolic argument")
+                if name == "join" and a and not all(isinstance(x, str) for x in a[0]):
+                    if any(isinstance(x, StrSym) for x in a[0]):
+                        return StrSym()
+                    raise SymRaise("TypeError", "sequence item: expected str instance")
+                r = getattr(obj, name)(*a, **k)
+                if isinstance(r, bool):
+                    return r
+                if isinstance(r, int):
+                    return sp.Integer(r)
+                return list(r) if isinstance(r, tuple) and name in ("partition", "rpartition") and False else r
             return Builtin(name, strm)
     if isinstance(obj, StrSym):
         return Builtin(name, lambda *a, **k: StrSym())
@@ -834,6 +881,21 @@ def make_builtins(I):
     reg("type", lambda x: x.cls if isinstance(x, SymObj) else Builtin(type(x).__name__, None))
     reg("map", lambda f, *its: [I.call(f, list(t), {}) for t in zip(*[iterate(I, x) for x in its])])
     reg("object", lambda: I.new_obj("object"))
+    reg("round", lambda x, n=None: (sp.Integer(round(float(to_expr(x)))) if n is None else to_expr(round(float(to_expr(x)), concrete_int(n))))
+        if to_expr(x).is_number else sp.Function("round")(to_expr(x)))
+    reg("divmod", lambda a, b: (binop(I, ast.FloorDiv(), a, b), binop(I, ast.Mod(), a, b)))
+    reg("pow", lambda a, b: binop(I, ast.Pow(), a, b))
+    reg("ord", lambda c: sp.Integer(ord(c)))
+    reg("chr", lambda c: chr(concrete_int(c)))
+    reg("frozenset", lambda x=(): frozenset(iterate(I, x)))
+    reg("filter", lambda f, it: [x for x in iterate(I, it) if truth(I, I.call(f, [x], {}) if f is not None else x) is sp.true])
+    reg("slice", lambda *a: slice(*[None if x is None else concrete_int(x) for x in a]))
+    reg("complex", lambda re_=0, im_=0: to_expr(re_) + sp.I * to_expr(im_))
+    reg("vars", lambda o: I.heap[o.id])
+    reg("NotImplementedError", lambda *a, **k: I.new_obj("<NotImplementedError>"))
+    reg("StopIteration", lambda *a, **k: I.new_obj("<StopIteration>"))
+    reg("OSError", lambda *a, **k: I.new_obj("<OSError>"))
+    reg("IOError", lambda *a, **k: I.new_obj("<IOError>"))
     reg("eval", lambda *a: None)
     reg("id", lambda x: sp.Integer(x.id if isinstance(x, SymObj) else id(x)))
     reg("hash", lambda x: sp.Integer(x.id if isinstance(x, SymObj) else hash(x)))
@@ -874,6 +936,37 @@ def external(I, dotted):
         return Builtin(dotted, refn)
     if dotted == "copy.copy":
         return I.builtins["copy.copy"]
+    if dotted in ("itertools", "collections", "functools", "operator"):
+        return ModuleVal(dotted, external=dotted)
+    if dotted == "itertools.chain":
+        return Builtin(dotted, lambda *its: [x for it in its for x in iterate(I, it)])
+    if dotted == "itertools.product":
+        import itertools as _it
+        return Builtin(dotted, lambda *its: [tuple(t) for t in _it.product(*[iterate(I, x) for x in its])])
+    if dotted == "itertools.islice":
+        return Builtin(dotted, lambda it, *a: iterate(I, it)[slice(*[None if x is None else concrete_int(x) for x in a])])
+    if dotted == "itertools.accumulate":
+        def accumulate(it, func=None):
+            out, acc = [], None
+            for x in iterate(I, it):
+                acc = x if acc is None else (binop(I, ast.Add(), acc, x) if func is None else I.call(func, [acc, x], {}))
+                out.append(acc)
+            return out
+        return Builtin(dotted, accumulate)
+    if dotted in ("collections.OrderedDict",):
+        return I.builtins["dict"]
+    if dotted in ("functools.lru_cache", "functools.cache", "functools.wraps", "functools.partial", "functools.reduce"):
+        if name == "partial":
+            return Builtin(dotted, lambda f, *a, **k: Builtin("partial", lambda *b, **kk: I.call(f, list(a) + list(b), dict(k, **kk))))
+        if name == "reduce":
+            def reduce(f, it, *init):
+                items = iterate(I, it)
+                acc = init[0] if init else items.pop(0)
+                for x in items:
+                    acc = I.call(f, [acc, x], {})
+                return acc
+            return Builtin(dotted, reduce)
+        return Builtin(dotted, lambda *a, **k: (a[0] if a and not k and isinstance(a[0], Closure) else Builtin("deco", lambda f: f)))
     if mod == "pyparsing":
         from . import peg
         cons = peg.constructors(I)
